@@ -296,6 +296,7 @@ fn cti_registry(cfg: &Cfg, rep: &mut Report, h: u64, steps: usize, grow: bool) {
     let issuers = w.accounts(ni);
     let mut topics: BTreeSet<u32> = BTreeSet::new();
     let mut it: BTreeMap<usize, BTreeSet<u32>> = BTreeMap::new();
+    let rep_full = std::cell::Cell::new(0u64);
     for step in 0..steps {
         // (rarely) far beyond every lifetime extension the library asks for: a registry must not forget
         if rng.chance(1, 40) {
@@ -306,6 +307,20 @@ fn cti_registry(cfg: &Cfg, rep: &mut Report, h: u64, steps: usize, grow: bool) {
         let i = rng.idx(ni);
         let k = rng.below(100);
         let pick_topics = |rng: &mut Rng, topics: &BTreeSet<u32>| -> Vec<u32> {
+            // one time in six every registered topic at once (exactly 15 when the registry is full), and
+            // half of those times one more that is not registered
+            if rng.chance(1, 6) && !topics.is_empty() {
+                let mut v: Vec<u32> = topics.iter().cloned().collect();
+                if v.len() == 15 {
+                    rep_full.set(rep_full.get() + 1);
+                }
+                if rng.chance(1, 2) {
+                    if let Some(x) = (1..=nt).find(|x| !topics.contains(x)) {
+                        v.push(x);
+                    }
+                }
+                return v;
+            }
             let mut v: Vec<u32> = vec![];
             for x in 1..=nt {
                 if (topics.contains(&x) && rng.chance(1, 2)) || rng.chance(1, 25) {
@@ -442,6 +457,7 @@ fn cti_registry(cfg: &Cfg, rep: &mut Report, h: u64, steps: usize, grow: bool) {
         }
         rep.evaluations += (nt as usize + ni + 3) as u64;
     }
+    rep.count_n("issuer_topic_lists_of_exactly_15", rep_full.get());
     rep.end_history();
 }
 
@@ -1273,6 +1289,7 @@ pub fn run(cfg: &Cfg, rep: &mut Report) {
     rep.floor_on("listed_key_paired_again_at_full_topic", 3, &["listed_key_paired_again_at_full_topic"]);
     rep.floor_on("rules_at_limit", 1, &["rules_at_limit"]);
     rep.floor_on("topics_at_limit", 1, &["topics_at_limit"]);
+    rep.floor_on("issuer_topic_lists_of_exactly_15", 1, &["issuer_topic_lists_of_exactly_15"]);
     rep.floor_on("modules_at_limit", 1, &["modules_at_limit"]);
     if cfg.thorough() {
         rep.floor_on("docs_at_max", 1, &["docs_at_max"]);
